@@ -372,7 +372,8 @@ pub trait GenerateNewtype {
             ),
         };
         let impl_into_inner = gen_impl_into_inner(type_name, generics, inner_type, const_fn);
-        let impl_new_unchecked = gen_new_unchecked(type_name, inner_type, new_unchecked, const_fn);
+        let impl_new_unchecked =
+            gen_new_unchecked(type_name, generics, inner_type, new_unchecked, const_fn);
 
         quote! {
             #impl_new
